@@ -9,5 +9,6 @@ CONSTANTS
   ServeFromIndexNotOrder = FALSE
   TrustScanOrder = FALSE
   SwapBeforeApply = TRUE
+  BatchOnSharedCopy = FALSE
 INVARIANT RejectedIsNoOp
 CHECK_DEADLOCK FALSE
